@@ -30,7 +30,7 @@ m = {
     'engines': [{'name': 'vk-kani', 'path': 'vk', 'serves_properties': claimed,
                  'kind_free_text': 'python driver that regenerates harness crates from /repo working tree, runs Kani/CBMC per harness under memory/time caps, classifies, replays counterexamples natively'}],
     'checks': checks,
-    'notes': 'exit 2 of a check = inconclusive (timeout/OOM/vacuity/unwinding bound/build failure/non-reproducing trace); never reported as held or violated. See DESIGN.md.',
+    'notes': 'exit 2 of a check = inconclusive (timeout/OOM/vacuity/unwinding bound/build failure/non-reproducing trace); never reported as held or violated. Known findings: /verif/known_findings.json (no open finding; one repaired defect: property C17, /repo commit b70d33a "fix: parse-error rendering must not panic on non-ASCII request text"). See DESIGN.md.',
     'not_applicable': [x for x in na if x['property_id'] not in claimed],
 }
 json.dump(m, open(os.path.join(V, 'MANIFEST.json'), 'w'), indent=1)
